@@ -3,7 +3,7 @@
 use proptest::strategy::Strategy;
 
 use crate::gen::{tree, GenCfg};
-use crate::observe::positions;
+use crate::observe::{guard, opts, positions, stream};
 use crate::props::common::*;
 use crate::runner::*;
 use crate::spec::{model_text, Spec};
@@ -38,7 +38,8 @@ impl Prop for C02 {
   const ID: &'static str = "C02";
   fn rule(&self) -> String {
     "ASCII trees from gen::tree(positional) (all source types, consistent maps on SourceMapSource leaves, \
-     replacement pools incl. beyond-end), each streamed on fresh objects with columns x final_source in {t,f}^2. \
+     replacement pools incl. beyond-end), each streamed on fresh objects with columns x final_source in {t,f}^2; trees with a CachedSource additionally on one \
+     object three times over (cold, warm, after map()). \
      Non-trivial: a replacement deletes or inserts a line break, or two children of a ConcatSource share an output line; \
      distinct by hash of the case JSON".into()
   }
@@ -67,47 +68,26 @@ impl Prop for C02 {
     let want = model_text(spec);
     let (pos, end) = positions(&want);
     for columns in [true, false] {
-      // (a), (b): normal mode
+      // (a), (b): normal mode; (c): text-less mode
       let st = fresh_stream(spec, columns, false).map_err(|p| format!("columns={columns}: {p}"))?;
-      let text = st.text();
-      if text != want {
-        return Err(format!("columns={columns}: stream reassembles to {text:?}, reference text is {want:?}"));
-      }
-      let mut off = 0usize;
-      for (k, ch) in st.chunks.iter().enumerate() {
-        let t = ch.text.as_deref().unwrap_or("");
-        if t.is_empty() {
-          continue;
-        }
-        if pos[off] != (ch.line, ch.col) {
-          return Err(format!(
-            "columns={columns}: chunk #{k} {t:?} reported at {}:{} but its text starts at {}:{} of {want:?}",
-            ch.line, ch.col, pos[off].0, pos[off].1
-          ));
-        }
-        off += t.len();
-      }
-      if st.info != end {
-        return Err(format!(
-          "columns={columns}: returned end {}:{} but the text {want:?} ends at {}:{}",
-          st.info.0, st.info.1, end.0, end.1
-        ));
-      }
-      // (c): text-less mode
+      check_stream(&st, &want, &pos, end, false).map_err(|e| format!("columns={columns}: {e}"))?;
       let fs = fresh_stream(spec, columns, true).map_err(|p| format!("columns={columns} final: {p}"))?;
-      if fs.info != end {
-        return Err(format!(
-          "columns={columns} final_source: returned end {}:{} but the text {want:?} ends at {}:{}",
-          fs.info.0, fs.info.1, end.0, end.1
-        ));
-      }
-      for (k, ch) in fs.chunks.iter().enumerate() {
-        let p = (ch.line, ch.col);
-        if p != end && pos.binary_search(&p).is_err() {
-          return Err(format!(
-            "columns={columns} final_source: chunk #{k} reported at {}:{}, which is not a position of {want:?}",
-            ch.line, ch.col
-          ));
+      check_stream(&fs, &want, &pos, end, true).map_err(|e| format!("columns={columns} final_source: {e}"))?;
+    }
+    // a tree with a CachedSource answers from its cache the second time: true positions are true
+    // positions whatever path produced the chunks, so the same oracle applies to one object streamed
+    // again (warm) and streamed after map()
+    if spec.has_cached() {
+      let obj = crate::build::build(spec);
+      for round in ["cold", "warm", "after map()"] {
+        for columns in [true, false] {
+          for final_source in [false, true] {
+            if round == "after map()" && !final_source {
+              guard(|| obj.map(&opts(columns, false))).map_err(|p| format!("map(columns={columns}): {p}"))?;
+            }
+            let st = guard(|| stream(&*obj, &opts(columns, final_source))).map_err(|p| format!("columns={columns} final_source={final_source} ({round}, one object): {p}"))?;
+            check_stream(&st, &want, &pos, end, final_source).map_err(|e| format!("columns={columns} final_source={final_source} ({round} call on one object): {e}"))?;
+          }
         }
       }
     }
@@ -115,4 +95,35 @@ impl Prop for C02 {
     tree_classes(spec, &mut info);
     Ok(info.class(shares_line(spec), "children sharing an output line"))
   }
+}
+
+fn check_stream(st: &crate::observe::Stream, want: &str, pos: &[(u32, u32)], end: (u32, u32), final_source: bool) -> Result<(), String> {
+  if st.info != end {
+    return Err(format!("returned end {}:{} but the text {want:?} ends at {}:{}", st.info.0, st.info.1, end.0, end.1));
+  }
+  if final_source {
+    for (k, ch) in st.chunks.iter().enumerate() {
+      let p = (ch.line, ch.col);
+      if p != end && pos.binary_search(&p).is_err() {
+        return Err(format!("chunk #{k} reported at {}:{}, which is not a position of {want:?}", ch.line, ch.col));
+      }
+    }
+    return Ok(());
+  }
+  let text = st.text();
+  if text != want {
+    return Err(format!("stream reassembles to {text:?}, reference text is {want:?}"));
+  }
+  let mut off = 0usize;
+  for (k, ch) in st.chunks.iter().enumerate() {
+    let t = ch.text.as_deref().unwrap_or("");
+    if t.is_empty() {
+      continue;
+    }
+    if pos[off] != (ch.line, ch.col) {
+      return Err(format!("chunk #{k} {t:?} reported at {}:{} but its text starts at {}:{} of {want:?}", ch.line, ch.col, pos[off].0, pos[off].1));
+    }
+    off += t.len();
+  }
+  Ok(())
 }
